@@ -27,7 +27,7 @@ ASN1_FUNCS = [j("asn1:" + n) for n in (
     "_read_asn1_sequence", "_read_asn1_set", "_read_asn1_boolean", "_read_asn1_integer", "_read_asn1_enumerated",
     "_pack_asn1", "_pack_asn1_integer", "_pack_asn1_boolean", "_pack_asn1_octet_string", "_pack_asn1_enumerated",
     "ASN1Reader.peek_header", "ASN1Reader.skip_value", "ASN1Reader.get_remaining_data", "ASN1Reader.read_octet_string",
-    "ASN1Reader.read_boolean", "ASN1Reader.read_integer", "ASN1Reader.read_sequence", "ASN1Reader.read_set",
+    "ASN1Reader.read_boolean", "ASN1Reader.read_integer", "ASN1Reader.read_enumerated", "ASN1Reader.read_sequence", "ASN1Reader.read_set",
     "ASN1Writer.write_boolean", "ASN1Writer.write_octet_string", "ASN1Writer.write_integer", "ASN1Writer.write_enumerated",
     "ASN1Writer.__exit__", "ASN1Writer.get_data")]
 
@@ -59,23 +59,56 @@ DECODE_TREE = [j("_authentication:%s.unpack" % n) for n in ("SimpleCredential", 
               [j("_messages:_unpack_ldap_message_content", None, "_messages:_unpack_ldap_message_content[containment]")]
 # readers the decode tree calls: their `raises` clauses and the progress clause are what containment rests on
 READER_METHODS = [j("asn1:" + n) for n in ("ASN1Reader.peek_header", "ASN1Reader.skip_value", "ASN1Reader.read_octet_string", "ASN1Reader.read_boolean",
-                                           "ASN1Reader.read_integer", "ASN1Reader.read_sequence", "ASN1Reader.read_set", "_read_asn1_header", "_validate_tag",
+                                           "ASN1Reader.read_integer", "ASN1Reader.read_enumerated", "ASN1Reader.read_sequence", "ASN1Reader.read_set", "_read_asn1_header", "_validate_tag",
                                            "_read_asn1_octet_string", "_read_asn1_sequence", "_read_asn1_set", "_read_asn1_boolean", "_read_asn1_integer",
                                            "_read_asn1_enumerated", "_unpack_asn1_octet_number")]
+
+# encode tree: LDAPMessage.pack and everything below it is total (contracts/encode.py)
+ENCODE_TREE = [j("_authentication:%s.pack" % n) for n in ("SimpleCredential", "SaslCredential")] + \
+              [j("_controls:LDAPControl.pack"), j("_controls:LDAPControl.get_value"), j("_controls:PagedResultControl.get_value")] + \
+              [j("_filter:%s.pack" % n) for n in ("FilterAnd", "FilterOr", "FilterNot", "FilterEquality", "FilterSubstrings", "FilterGreaterOrEqual",
+                                                  "FilterLessOrEqual", "FilterPresent", "FilterApproxMatch", "FilterExtensibleMatch")] + \
+              [j("_messages:%s._pack_inner" % n) for n in ("BindRequest", "BindResponse", "ExtendedRequest", "ExtendedResponse", "SearchRequest", "SearchResultDone",
+                                                           "SearchResultEntry", "SearchResultReference", "LDAPResult", "PartialAttribute", "LDAPMessage")] + \
+              [j("_messages:LDAPMessage.pack", None, "_messages:LDAPMessage.pack[totality]")]
+_ENC_ASSUME = ["LDAPMessage.pack is the abstract function enc at the session layer; that it *returns* for every message value (raising nothing but UnicodeEncodeError for text without an encoding) is discharged "
+               "from the bodies of the 28 functions of the encode tree (contracts/encode.py); closed world: credentials, filters and controls are instances of the library's own classes",
+               "every int / enum field of a message value is below 256^(2^40) in magnitude (INTEGER contents of at most 2^40 octets)"]
+
+# RFC 4515 text scanners (contracts/filter_text.py)
+FILTER_TEXT = [j("_filter:" + n) for n in ("LDAPFilter.from_string", "_unpack_filter", "_unpack_complex_filter", "_unpack_simple_filter",
+                                           "_unpack_filter_extensible_header", "_unpack_filter_substrings_value")]
+
+# decoders with value-level postconditions (contracts/decode.py, second half)
+VALUE_DECODERS = [j("_authentication:SimpleCredential.unpack"), j("_authentication:SaslCredential.unpack"), j("_filter:_unpack_filter_attribute_value_assertion")] + \
+                 [j("_filter:%s.unpack" % n) for n in ("FilterEquality", "FilterGreaterOrEqual", "FilterLessOrEqual", "FilterApproxMatch", "FilterPresent")] + \
+                 [j("_messages:_unpack_bind_request"), j("_messages:_unpack_search_request")]
+_VD_NOTE = ("Proved for all octets (value-level postconditions over the X.690 denotation, which accepts every definite length form): both credential choices (SASL credentials present exactly when a UNIVERSAL primitive OCTET STRING follows "
+            "the mechanism - anything else is an ignored trailing element), the four AttributeValueAssertion filter choices and `present`, the leading components of BindRequest (version, name) and SearchRequest "
+            "(baseObject, scope, derefAliases, sizeLimit, timeLimit). ")
 
 REGISTRY = {
     "C07": {"jobs": LEMMAS_BER + ASN1_FUNCS, "native": "native_c07.py",
             "assumptions": ["len(x) < 2^63 for every octet string (CPython sys.maxsize); INTEGER contents of at most 2^40 octets",
-                            "inlined without a contract of their own: ASN1Tag.universal_tag, ASN1Reader.__init__/__bool__/read_enumerated, ASN1Writer.__init__/__enter__/push_sequence/push_set (executed symbolically at every call site)"]},
-    "C01": {"jobs": [], "native": "native_messages.py", "level": "other",
-            "explanation": "Contract unpack(pack(m)) == m (reader exhausted, re-encoding identical; known controls may expose their raw value), evaluated over a stated bounded set of messages of all nine kinds. "
+                            "inlined without a contract of their own: ASN1Tag.universal_tag, ASN1Reader.__init__/__bool__, ASN1Writer.__init__/__enter__/push_sequence/push_set (executed symbolically at every call site)"]},
+    "C01": {"jobs": VALUE_DECODERS, "native": "native_messages.py", "level": "other",
+            "explanation": _VD_NOTE + "The encode side is C03's encoding relation. The composition into the round trip is not discharged; it is the bounded evaluation: "
+                           "Contract unpack(pack(m)) == m (reader exhausted, re-encoding identical; known controls may expose their raw value), evaluated over a stated bounded set of messages of all nine kinds. "
                            "The byte layer below (every TLV written is read back identically, all integers) is proved under C07; the per-message node-level contracts are not discharged deductively yet."},
-    "C03": {"jobs": [], "native": "native_messages.py", "level": "other",
-            "explanation": "Contract rfc4511.decode(m.pack(), strict) == abstract(m) against an independent RFC 4511 / X.690 codec (specs/rfc4511.py, written from Appendix B), evaluated over the bounded message set. "
-                           "Exact identifier octets, minimal definite lengths, minimal INTEGERs and TRUE = FF of every primitive are proved for all values under C07 (tlv_of, tc, minimal_tc)."},
-    "C04": {"jobs": [], "native": "native_messages.py", "level": "other",
-            "explanation": "Every definite length form and TRUE = any non-zero octet are proved for all inputs at the byte layer (C07: _read_asn1_header equals the X.690 denotation; _read_asn1_boolean). "
-                           "At the message layer the contract unpack(encode_with_freedoms(abstract(m))) == m is evaluated over the bounded message set x 7 freedom combinations (extra length octets at every node, TRUE as 01/80/7F, explicit defaults, unknown trailing elements)."},
+    "C03": {"jobs": ENCODE_TREE + [j("specs.ldapmsg:lemma_strs_snoc"), j("specs.ldapmsg:lemma_octs_snoc")], "native": "native_messages.py", "level": "other",
+            "assumptions": _ENC_ASSUME[1:] + ["closed world: credentials, filters and controls are instances of the library's own classes; the abstract base methods (AuthenticationCredential.pack, LDAPFilter.pack) "
+                                              "carry the contract 'appends exactly one element', what the element is being stated and proved per concrete class",
+                                              "three loops over lists of *objects* (filters of and / or, attributes of SearchResultEntry, controls of the envelope) are verified for totality and for the enclosing element only: "
+                                              "each element encoder is verified against its own encoding relation, but the accumulation over the list is not carried as a loop invariant (covered by the bounded evaluation)"],
+            "explanation": "Proved for all message values (contracts/encode.py): the RFC 4511 encoding relation of the envelope and of every message kind, credential choice, filter choice and control - each function appends exactly the "
+                           "elements the ASN.1 module lists, in order, each one TLV with the stated class / primitive-or-constructed form / number, minimal identifier and definite length octets, the stated content "
+                           "(utf8 of the string field, the octets field, minimal two's-complement of the integer / enumerated field, FF for TRUE), DEFAULT FALSE and absent optionals omitted; lists of strings and octet strings "
+                           "(referrals, URIs, attribute selections, attribute values, substrings 'any') by loop invariants over strs_enc / octs_enc with induction lemmas. By lemma_tlv_roundtrip (C07) a strict decoder reads such octets back uniquely. "
+                           "Not proved (hence level 'other'): the accumulation over lists of objects (and / or filters, PartialAttributeList, Controls) and the decoder side; the contract rfc4511.decode(m.pack(), strict) == abstract(m) "
+                           "against the independent codec (specs/rfc4511.py) is evaluated over the bounded message set for those. One clause is a listed known finding (UnbindRequest written constructed)."},
+    "C04": {"jobs": VALUE_DECODERS, "native": "native_messages.py", "level": "other",
+            "explanation": _VD_NOTE + "Every definite length form and TRUE = any non-zero octet are proved for all inputs at the byte layer (C07: _read_asn1_header equals the X.690 denotation; _read_asn1_boolean). "
+                           "At the message layer the contract unpack(encode_with_freedoms(abstract(m))) == m is evaluated over the bounded message set x 10 freedom combinations (extra length octets at every node, TRUE as 01/80/7F, explicit defaults, unknown trailing elements incl. ones whose tag number coincides with a known component in another class)."},
     "C02": {"jobs": RECEIVE + LEMMAS_FRAMING + FRAME_READERS + [j("asn1:ASN1Reader.read_octet_string")], "native": "native_receive.py",
             "assumptions": ["decoding the content of one envelope is a deterministic function of those octets and the options (dec_content; C19 supports it)",
                             "the 'same state as a single delivery' clause composes the proved facts on paper: receive returns msgs(R ++ data) and keeps residue(R ++ data); "
@@ -96,8 +129,13 @@ REGISTRY = {
     "C14": {"jobs": [], "native": "native_filter_text.py", "level": "other",
             "explanation": "Contract from_string(s) == tree denoted by the RFC 4515 derivation of s, evaluated on bounded-exhaustive grammar derivations generated together with their trees; "
                            "attribute-description language inclusion RFC 4512 in L(_ATTRIBUTE_PATTERN) is exact (automata). The encoding half of the statement is C03's."},
-    "C15": {"jobs": [], "native": "native_filter_text.py", "level": "other",
-            "explanation": "Exact: L(_ATTRIBUTE_PATTERN) versus the RFC 4512 attribute description language over the full Unicode alphabet (automata difference). "
+    "C15": {"jobs": FILTER_TEXT, "native": "native_filter_text.py", "level": "other",
+            "assumptions": ["re.Pattern.match is total and returns a match or None (both outcomes followed, the pattern's language not modelled in the deductive stage); str.split / bytes.split return at least one piece",
+                            "_unpack_filter_value (re.sub with a raising callback) is a trusted contract: raises only FilterSyntaxError carrying the offset / length it was given",
+                            "RecursionError (interpreter stack) is not modelled; from_string catches it and reports FilterSyntaxError"],
+            "explanation": "Proved for every text (contracts/filter_text.py): from_string and the scanners _unpack_filter / _unpack_complex_filter / _unpack_simple_filter / extensible header / substrings splitter return or raise FilterSyntaxError only "
+                           "(every indexing, unpacking and None site is an obligation, with loop invariants over the scan position), consume at most the octets they were given, and every error span satisfies "
+                           "offset <= exc.offset, 0 <= exc.length, exc.offset + exc.length <= offset + length in octets of the UTF-8 view. The remaining clauses (accepted results are RFC 4512-valid and re-parse to themselves) are decided as before: Exact: L(_ATTRIBUTE_PATTERN) versus the RFC 4512 attribute description language over the full Unicode alphabet (automata difference). "
                            "Bounded-exhaustive: every string up to the stated length over a class-representative alphabet and every single-character edit of grammar sentences: "
                            "only FilterSyntaxError, span inside the input, accepted results RFC-valid and re-parsing to themselves."},
     "C16": {"jobs": [], "native": "native_schema_text.py", "level": "other",
@@ -121,10 +159,10 @@ REGISTRY = {
                              "sre opcodes modelled: LITERAL NOT_LITERAL ANY IN BRANCH SUBPATTERN MAX/MIN_REPEAT AT; anything else is reported undecided"]},
     "C08": {"jobs": SEND_CORE + SERVER_API + CLIENT_API + INCOMING + RECEIVE[:4], "native": "native_session.py"},
     "C09": {"jobs": [j(f"{S}:LDAPClient._send"), inh("_send", "LDAPClient")] + CLIENT_API + [INCOMING[0]], "native": "native_session.py"},
-    "C10": {"jobs": SEND_CORE + SERVER_API + CLIENT_API, "native": "native_session.py"},
+    "C10": {"jobs": SEND_CORE + SERVER_API + CLIENT_API + ENCODE_TREE, "native": "native_session.py", "assumptions": _ENC_ASSUME},
     "C11": {"jobs": [], "native": "native_joint.py", "level": "other", "joint": True,
             "explanation": "Contract-level joint invariant over (client, server, two FIFO queues) discharged per action with z3, the session part of every action being derived from the proved L3 method contracts "
                            "(obligation: contract => action); alive fragment (no terminations). Byte-level delivery reduces to message-level delivery by C02 / C01 (used as lemmas). "
                            "Bounded: all joint histories up to a stated depth with partial deliveries, including terminations."},
-    "C12": {"jobs": DRAIN + SEND_CORE + SERVER_API + CLIENT_API, "native": "native_session.py"},
+    "C12": {"jobs": DRAIN + SEND_CORE + SERVER_API + CLIENT_API + ENCODE_TREE, "native": "native_session.py", "assumptions": _ENC_ASSUME},
 }
